@@ -35,7 +35,7 @@ fn typ_name(t: IceCandidateType) -> &'static str {
 
 #[derive(Clone, Copy, Debug, PartialEq)] pub enum User { None, Wrong, Ok }
 #[derive(Clone, Copy, Debug, PartialEq)] pub enum Mi { None, Corrupt, WrongKey, Ok }
-#[derive(Clone, Copy, Debug, PartialEq)] pub enum Sk { Udp0, Udp1, Tcp, Turn }
+#[derive(Clone, Copy, Debug, PartialEq)] pub enum Sk { Udp0, Udp1, Tcp, Turn, Shared, Listener }
 #[derive(Clone, Debug, PartialEq)]
 pub enum What {
     Req { user: User, mi: Mi, uc: bool, method: u8 },
@@ -58,7 +58,7 @@ impl Case {
         let mut s = format!("c{},s{},l{},n{},L{},R{},S{},P{},w{}", self.controlling as u8, self.state, self.latching as u8, self.nominated as u8,
             self.locals, self.remotes, self.selected.map(|(a, b)| format!("{a}.{b}")).unwrap_or_else(|| "-".into()), self.pending, self.webrtc as u8);
         for p in &self.pkts {
-            let sk = match p.sock { Sk::Udp0 => "u0", Sk::Udp1 => "u1", Sk::Tcp => "tcp", Sk::Turn => "turn" };
+            let sk = match p.sock { Sk::Udp0 => "u0", Sk::Udp1 => "u1", Sk::Tcp => "tcp", Sk::Turn => "turn", Sk::Shared => "sh", Sk::Listener => "li" };
             let w = match &p.what {
                 What::Req { user, mi, uc, method } => format!("req.{}.{}.{}.{}", *user as u8, *mi as u8, *uc as u8, method),
                 What::Resp { tx, error, method } => format!("resp.{tx}.{}.{method}", *error as u8),
@@ -78,7 +78,7 @@ impl Case {
             let (sk, rest) = p.split_once('<')?;
             let (src, w) = rest.split_once(':')?;
             let f: Vec<&str> = w.split('.').collect();
-            let sock = match sk { "u0" => Sk::Udp0, "u1" => Sk::Udp1, "tcp" => Sk::Tcp, _ => Sk::Turn };
+            let sock = match sk { "u0" => Sk::Udp0, "u1" => Sk::Udp1, "tcp" => Sk::Tcp, "sh" => Sk::Shared, "li" => Sk::Listener, _ => Sk::Turn };
             let what = match f[0] {
                 "req" => What::Req { user: [User::None, User::Wrong, User::Ok][f[1].parse::<usize>().ok()?], mi: [Mi::None, Mi::Corrupt, Mi::WrongKey, Mi::Ok][f[2].parse::<usize>().ok()?], uc: f[3] == "1", method: f[4].parse().ok()? },
                 "resp" => What::Resp { tx: f[1].parse().ok()?, error: f[2] == "1", method: f[3].parse().ok()? },
@@ -104,12 +104,13 @@ pub struct Env {
     peers: [std::net::UdpSocket; 4],    // peers[3]: same port as peers[0] on 127.0.0.2 (the latching condition)
     tcp_server: IceSocketWrapper, tcp_client: std::net::TcpStream, tcp_local: SocketAddr, tcp_peer: SocketAddr,
     turn_client: Arc<TurnClient>, turn_server: std::net::UdpSocket, relayed: SocketAddr,
+    shared: IceSocketWrapper, shared_addr: SocketAddr, _shared_reg: Box<dyn std::any::Any + Send>, listener: Arc<TcpListener>,
 }
 
 impl Env {
     pub fn new() -> Env {
         let rt = tokio::runtime::Builder::new_current_thread().enable_all().build().unwrap();
-        let (locals, peers, tcp_server, tcp_client, tcp_local, tcp_peer, turn_client, turn_server) = rt.block_on(async {
+        let (locals, peers, tcp_server, tcp_client, tcp_local, tcp_peer, turn_client, turn_server, shared, shared_addr, shared_reg, listener) = rt.block_on(async {
             let locals = [Arc::new(UdpSocket::bind("127.0.0.1:0").await.unwrap()), Arc::new(UdpSocket::bind("127.0.0.1:0").await.unwrap())];
             let sp = || { let s = std::net::UdpSocket::bind("127.0.0.1:0").unwrap(); s.set_nonblocking(true).unwrap(); s };
             let p0 = sp();
@@ -125,27 +126,29 @@ impl Env {
             let turn_server = sp();
             let tsock = Arc::new(UdpSocket::bind("127.0.0.1:0").await.unwrap());
             let turn_client = Arc::new(TurnClient::verif_new_udp(tsock, turn_server.local_addr().unwrap()));
-            std::mem::forget(listener);
-            (locals, peers, tcp_server, tcp_client, tcp_local, tcp_peer, turn_client, turn_server)
+            let (shared_addr, shared, shared_reg) = rustrtc::verif_hooks::ice::shared::acquire_udp("127.0.0.1:0".parse().unwrap(), "verifmuxufrag".into()).await.unwrap();
+            (locals, peers, tcp_server, tcp_client, tcp_local, tcp_peer, turn_client, turn_server, shared, shared_addr, shared_reg, Arc::new(listener))
         });
         let relayed: SocketAddr = "198.51.100.4:49152".parse().unwrap();
-        Env { rt, locals, peers, tcp_server, tcp_client, tcp_local, tcp_peer, turn_client, turn_server, relayed }
+        Env { rt, locals, peers, tcp_server, tcp_client, tcp_local, tcp_peer, turn_client, turn_server, relayed, shared, shared_addr, _shared_reg: shared_reg, listener }
     }
     fn peer_addr(&self, i: u8, sock: Sk) -> SocketAddr {
         if sock == Sk::Tcp { self.tcp_peer } else { self.peers[(i % 4) as usize].local_addr().unwrap() }
     }
     fn local_addr_of(&self, sock: Sk) -> SocketAddr {
-        match sock { Sk::Udp0 => self.locals[0].local_addr().unwrap(), Sk::Udp1 => self.locals[1].local_addr().unwrap(), Sk::Tcp => self.tcp_local, Sk::Turn => self.relayed }
+        match sock { Sk::Udp0 => self.locals[0].local_addr().unwrap(), Sk::Udp1 => self.locals[1].local_addr().unwrap(), Sk::Tcp | Sk::Listener => self.tcp_local, Sk::Turn => self.relayed, Sk::Shared => self.shared_addr }
     }
     fn wrapper(&self, sock: Sk) -> IceSocketWrapper {
         match sock { Sk::Udp0 => IceSocketWrapper::Udp(self.locals[0].clone()), Sk::Udp1 => IceSocketWrapper::Udp(self.locals[1].clone()),
-            Sk::Tcp => self.tcp_server.clone(), Sk::Turn => IceSocketWrapper::Turn(self.turn_client.clone(), self.relayed) }
+            Sk::Tcp => self.tcp_server.clone(), Sk::Turn => IceSocketWrapper::Turn(self.turn_client.clone(), self.relayed),
+            Sk::Shared => self.shared.clone(), Sk::Listener => IceSocketWrapper::TcpListener(self.listener.clone()) }
     }
     /// drain and return the last datagram that came back to the source of the packet
     fn reply(&mut self, sock: Sk, src: u8) -> Option<Vec<u8>> {
         let mut buf = vec![0u8; 4096];
         match sock {
-            Sk::Udp0 | Sk::Udp1 => { let mut last = None; while let Ok((n, _)) = self.peers[(src % 4) as usize].recv_from(&mut buf) { last = Some(buf[..n].to_vec()); } last }
+            Sk::Listener => None,
+            Sk::Udp0 | Sk::Udp1 | Sk::Shared => { let mut last = None; while let Ok((n, _)) = self.peers[(src % 4) as usize].recv_from(&mut buf) { last = Some(buf[..n].to_vec()); } last }
             Sk::Tcp => {
                 use std::io::Read;
                 // loopback TCP: the framed reply is queued by the time the write returned; allow a few retries
@@ -198,6 +201,7 @@ fn build(env: &Env, c: &Case, rng_tx: &mut Rng) -> Built {
     for i in 0..2 { if c.locals & (1 << i) != 0 { let cand = IceCandidate::host(env.locals[i].local_addr().unwrap(), 1); transport.verif_add_local_udp(cand.clone(), env.locals[i].clone()); locals.push(cand); } }
     if c.locals & 4 != 0 { let cand = IceCandidate::host_tcp(env.tcp_local, 1, TcpType::Passive); transport.verif_add_local_candidate(cand.clone()); locals.push(cand); }
     if c.locals & 8 != 0 { let cand = chook::relay(env.relayed, 1, "udp"); transport.verif_add_local_candidate(cand.clone()); locals.push(cand); }
+    if c.locals & 16 != 0 { let cand = IceCandidate::host(env.shared_addr, 1); transport.verif_add_local_candidate(cand.clone()); locals.push(cand); }
     for l in &locals {
         toks.push_str(&format!(" loc,{},{},{},{},{},{}", addr3(&l.address), addr3(&l.base_address()), typ_name(l.typ), (l.transport == "tcp") as u8,
             (l.tcp_type == Some(TcpType::Passive)) as u8, l.priority));
@@ -271,7 +275,7 @@ pub fn exec(env: &mut Env, run: &mut Run, c: &Case, verbose: bool) {
     for p in &c.pkts {
         let src = env.peer_addr(p.src, p.sock);
         let (bytes, authentic) = packet_bytes(&b, p, &mut tx_rng);
-        let sk = match p.sock { Sk::Udp0 | Sk::Udp1 => "udp", Sk::Tcp => "tcp", Sk::Turn => "turn" };
+        let sk = match p.sock { Sk::Udp0 | Sk::Udp1 => "udp", Sk::Tcp => "tcp", Sk::Turn => "turn", Sk::Shared => "shared", Sk::Listener => "listener" };
         input.push_str(&format!(" pkt,{sk},{},{},{}", addr3(&env.local_addr_of(p.sock)), addr3(&src), hex(&bytes)));
         let before = outs.last().unwrap().clone();
         let fwd0 = *b.cap.0.lock();
@@ -309,7 +313,7 @@ pub fn exec(env: &mut Env, run: &mut Run, c: &Case, verbose: bool) {
         }
         // reply well-formedness (reference crate): Binding success, same transaction id, XOR-MAPPED = source, MI under the local password, FINGERPRINT
         if let (Some(rep), What::Req { .. }) = (&reply, &p.what) { reply_oracle(run, c, rep, &bytes, src, &b.pwd); }
-        if matches!(p.what, What::Req { .. }) && reply.is_none() && r.is_ok() { run.count("request_without_observed_reply"); }
+        if matches!(p.what, What::Req { .. }) && reply.is_none() && r.is_ok() && p.sock != Sk::Listener { run.count("request_without_observed_reply"); }
         if let Some(a) = authentic {
             // three-way: the real `stun_request_authenticated`, the generator's intent (= strict RFC reading), the model
             let real = b.transport.verif_request_authenticated(&bytes);
@@ -357,12 +361,12 @@ fn gen_what(rng: &mut Rng, pending: u8) -> What {
 
 fn gen_case(rng: &mut Rng) -> Case {
     let pending = rng.below(3) as u8;
-    let locals = (rng.below(16) as u8) | if rng.chance(3, 4) { 1 } else { 0 };
+    let locals = (rng.below(32) as u8) | if rng.chance(3, 4) { 1 } else { 0 };
     let remotes = rng.below(32) as u8;
     let nloc = locals.count_ones() as u8; let nrem = (remotes & 15).count_ones() as u8;
     let selected = if nloc > 0 && nrem > 0 && rng.chance(1, 2) { Some((rng.below(nloc as u64) as u8, rng.below(nrem as u64) as u8)) } else { None };
     let n = rng.range(1, 4) as usize;
-    let pkts = (0..n).map(|_| { let sock = *rng.pick(&[Sk::Udp0, Sk::Udp0, Sk::Udp0, Sk::Udp1, Sk::Tcp, Sk::Turn]); Pkt { sock, src: rng.below(4) as u8, what: gen_what(rng, pending) } }).collect();
+    let pkts = (0..n).map(|_| { let sock = *rng.pick(&[Sk::Udp0, Sk::Udp0, Sk::Udp0, Sk::Udp1, Sk::Tcp, Sk::Turn, Sk::Shared, Sk::Listener]); Pkt { sock, src: rng.below(4) as u8, what: gen_what(rng, pending) } }).collect();
     Case { controlling: rng.chance(1, 2), state: rng.below(3) as u8, latching: rng.chance(1, 4), nominated: rng.chance(1, 4), webrtc: rng.chance(4, 5), locals, remotes, selected, pending, pkts }
 }
 
@@ -427,15 +431,15 @@ pub fn run(args: &Args) {
     let mut run = Run::new("c06", &args.out);
     let mut rng = Rng::new(args.seed);
     // (1) exhaustive request matrix: user x mi x uc x known/unknown source x state x role x socket kind, one packet each
-    for controlling in [false, true] { for state in 0..3u8 { for sock in [Sk::Udp0, Sk::Tcp, Sk::Turn] { for known in [false, true] {
+    for controlling in [false, true] { for state in 0..3u8 { for sock in [Sk::Udp0, Sk::Tcp, Sk::Turn, Sk::Shared, Sk::Listener] { for known in [false, true] {
         for user in [User::None, User::Wrong, User::Ok] { for mi in [Mi::None, Mi::Corrupt, Mi::WrongKey, Mi::Ok] { for uc in [false, true] {
             let remotes = if !known { 0 } else if sock == Sk::Tcp { 8 } else { 1 };
-            let c = Case { controlling, state, latching: false, nominated: false, webrtc: true, locals: 0b1101, remotes, selected: None, pending: 1,
+            let c = Case { controlling, state, latching: false, nominated: false, webrtc: true, locals: 0b11101, remotes, selected: None, pending: 1,
                 pkts: vec![Pkt { sock, src: 0, what: What::Req { user, mi, uc, method: 0 } }] };
             exec(&mut env, &mut run, &c, false);
         }}}
     }}}}
-    run.count_n("exhaustive_request_matrix", 2 * 3 * 3 * 2 * 3 * 4 * 2);
+    run.count_n("exhaustive_request_matrix", 2 * 3 * 5 * 2 * 3 * 4 * 2);
     // responses: solicited / unsolicited / replayed, success / error, all roles and states
     for controlling in [false, true] { for state in 0..3u8 { for error in [false, true] { for tx in [0u8, 1, 200] { for sock in [Sk::Udp0, Sk::Turn] {
         let r = Pkt { sock, src: 1, what: What::Resp { tx, error, method: 0 } };
@@ -457,7 +461,6 @@ pub fn run(args: &Args) {
     let n = if args.tier_thorough { 40_000 } else { 2_500 };
     for _ in 0..n { let c = gen_case(&mut rng); exec(&mut env, &mut run, &c, false); }
     run.exhaustive = true;
-    run.notes.insert("exhaustive_scope".into(), serde_json::json!("request matrix USERNAME{none,wrong,correct} x MESSAGE-INTEGRITY{none,corrupted,wrong-key,correct} x ±USE-CANDIDATE x known/unknown source x {New,Checking,Connected} x {controlled,controlling} x {UDP, accepted TCP stream, TURN relay}; responses {pending, second pending, unknown id} x {success,error} x 3 repetitions x roles x states"));
-    run.notes.insert("socket_kinds_not_driven".into(), serde_json::json!("SharedUdp (ice_udp_mux) and TcpListener wrappers are modelled (same code path as Udp for these handlers) but not driven: their handles cannot be constructed outside the crate"));
+    run.notes.insert("exhaustive_scope".into(), serde_json::json!("request matrix USERNAME{none,wrong,correct} x MESSAGE-INTEGRITY{none,corrupted,wrong-key,correct} x ±USE-CANDIDATE x known/unknown source x {New,Checking,Connected} x {controlled,controlling} x {UDP, shared UDP mux, TCP listener, accepted TCP stream, TURN relay}; responses {pending, second pending, unknown id} x {success,error} x 3 repetitions x roles x states"));
     run.finish();
 }
